@@ -20,6 +20,9 @@ import glob
 import json
 import os
 import re
+import shutil
+import threading
+import time
 
 import vlib
 
@@ -47,41 +50,58 @@ CHECK_DEADLOCK FALSE
 """ % (maxlen, opts, envs)
 
 
-def select(ctx, cases):
-    """tier / seed dependent choice among the TLC-enumerated cases"""
-    by = {}
-    for c in cases:
-        by.setdefault(tuple(c["kinds"]), {"fork": [], "cont": []})[c["impl"]].append(c)
-    tables = sorted(by)
-    rng = ctx.rng
-    chosen = []
-    if ctx.quick():
-        # ~40 tables x 2 implementations; every kind is present, lengths 1..3 mixed
-        short = [t for t in tables if 1 <= len(t) <= 2]
-        long3 = [t for t in tables if len(t) == 3]
-        pick = rng.sample(short, 14) + rng.sample(long3, 26)
-        for t in pick:
-            chosen += by[t]["fork"]
-            if by[t]["cont"]:
-                chosen.append(rng.choice(by[t]["cont"]))
-    else:
-        n3 = 0
-        long3 = [t for t in tables if len(t) == 3]
-        sample3 = set(rng.sample(long3, 420))
-        for t in tables:
-            if len(t) <= 2:
-                chosen += by[t]["fork"] + by[t]["cont"]
-            elif t in sample3:
-                n3 += 1
-                chosen += by[t]["fork"]
-                if by[t]["cont"]:
-                    chosen.append(rng.choice(by[t]["cont"]))
-    out = []
-    for i, c in enumerate(chosen):
-        c = dict(c)
-        c["id"] = i + 1
-        out.append(c)
-    return out
+class Bg:
+    """run f() in a thread; join() re-raises what it raised"""
+
+    def __init__(self, f):
+        self.res, self.exc = None, None
+
+        def w():
+            try:
+                self.res = f()
+            except BaseException as e:      # noqa: relayed by join()
+                self.exc = e
+        self.th = threading.Thread(target=w, daemon=True)
+        self.th.start()
+
+    def join(self):
+        self.th.join()
+        if self.exc is not None:
+            raise self.exc
+        return self.res
+
+
+def tlc_bg(ctx, *a, **kw):
+    """ctx.tlc in the background.  ctx.tlc numbers its scratch directories with a plain counter, so
+    the next run is only started once this one has created its directory."""
+    d = os.path.join(ctx.scratch, "tlc%d" % (ctx._tlc_n + 1))
+    kw["count"] = False
+    b = Bg(lambda: ctx.tlc(*a, **kw))
+    while b.th.is_alive() and not os.path.isdir(d):
+        time.sleep(0.02)
+    return b
+
+
+def counted(ctx, r):
+    ctx.states += r.distinct
+    ctx.transitions += r.generated
+    return r
+
+
+def gen_cfg(ctx):
+    """quick: every table of <= 1 entry in every variant (namespace runner + container x 4 option
+    sets), + 6 drawn 2-entry and 18 drawn 3-entry tables, each with the namespace runner and one
+    drawn container variant; thorough: every table of <= 2 entries in every variant + 420 drawn
+    3-entry tables.  TLC draws (Randomization, -seed)."""
+    return """CONSTANTS
+  MaxLen = 3
+  ContOpts <- ContOptsMain
+  FullLen = %d
+  NShort = %d
+  NLong = %d
+INIT Init
+NEXT Next
+""" % ctx.pick((1, 6, 18), (2, 0, 420))
 
 
 # ---------------------------------------------------------------- strace text -> events
@@ -191,12 +211,21 @@ def parse_trace(text, root, srcdir, lockdir):
     return ev, done
 
 
+def prepare_bins(ctx):
+    # probe and driver share the family name and therefore the output path bin/mounts:
+    # build the probe first, keep it under another name, then build the driver
+    probe = ctx.path("bin", "vprobe-mounts")
+    if not os.path.exists(probe):
+        shutil.copy(ctx.probe("mounts"), probe)
+        os.chmod(probe, 0o755)
+    return ctx.build_vdrive("mounts"), probe
+
+
 def run_driver(ctx, cases, tag, strace):
     """build the cases for real; returns (observations, {case id: strace text})"""
     if not cases:
         return [], {}
-    exe = ctx.build_vdrive("mounts")
-    probe = ctx.probe("mounts")
+    exe, probe = prepare_bins(ctx)
     work = ctx.mkdir("run-" + tag)
     cfile = ctx.path(tag + "-cases.ndjson")
     ofile = ctx.path(tag + "-obs.ndjson")
@@ -230,6 +259,20 @@ def run_driver(ctx, cases, tag, strace):
     return obs, texts
 
 
+def build_traces(ctx, fobs, texts):
+    traces = []
+    byid = {o["case"]["id"]: o for o in fobs}
+    work = os.path.join(ctx.scratch, "run-fork")
+    for cid in sorted(texts):
+        o = byid.get(cid)
+        if o is None:
+            continue
+        ev, done = parse_trace(texts[cid], "%s/c%d/root" % (work, cid), "%s/c%d/src" % (work, cid),
+                               "%s/locked/c%d" % (work, cid))
+        traces.append(dict(case=o["case"], srcfl=o["srcfl"], lockfl=o["lockfl"], done=done, ev=ev))
+    return traces
+
+
 def key_of(b, o):
     c = o["case"]
     k = "%s:%s:%s" % (b["w"], c["impl"], b["k"] or "-")
@@ -245,21 +288,24 @@ def key_of(b, o):
 def run(ctx):
     # fewer GC threads: the machine is shared with other checks (measured 2x faster under load)
     ctx.env["JDK_JAVA_OPTIONS"] = "-XX:ParallelGCThreads=2"
-    # ---- 1. design level
-    if ctx.quick():
-        r = ctx.tlc("Mounts", cfg=mc_cfg(2, "ContOptsMain", "EnvsOne"), workers=4, timeout=400)
-        ctx.tlc_ok("Mounts MC (tables <= 2)", r)
-        ctx.cov["mc"] = "tables<=2 x {fork, cont x 4 option sets}: %d states" % r.distinct
-    else:
-        r = ctx.tlc("Mounts", workers=4, timeout=900, coverage=False)
+    # ---- 1. design level (in the background while the sandboxes are built; one MC run at a time)
+    def design():
+        if ctx.quick():
+            r = counted(ctx, tlc_bg(ctx, "Mounts", cfg=mc_cfg(2, "ContOptsMain", "EnvsOne"), workers=4, timeout=400).join())
+            ctx.tlc_ok("Mounts MC (tables <= 2)", r)
+            return "tables<=2 x {fork, cont x 4 option sets}: %d states" % r.distinct
+        r = counted(ctx, tlc_bg(ctx, "Mounts", workers=4, timeout=900).join())
         ctx.tlc_ok("Mounts MC (tables <= 3)", r)
-        r2 = ctx.tlc("Mounts", cfg="Mounts_MC2.cfg", workers=4, timeout=600, coverage=True)
+        r2 = counted(ctx, tlc_bg(ctx, "Mounts", cfg="Mounts_MC2.cfg", workers=4, timeout=600, coverage=True).join())
         ctx.tlc_ok("Mounts MC (tables <= 2, all option sets, two environments)", r2)
         zero = r2.coverage_zero()
         if zero:
             ctx.note("MC actions never taken: %s" % ",".join(sorted(set(zero))))
-        ctx.cov["mc"] = "tables<=3 x {fork, cont x 4}: %d states; tables<=2 x {fork, cont x 8} x 2 envs: %d states" % (
+        return "tables<=3 x {fork, cont x 4}: %d states; tables<=2 x {fork, cont x 8} x 2 envs: %d states" % (
             r.distinct, r2.distinct)
+    mc = Bg(design)
+    time.sleep(0.3)
+    bins = Bg(lambda: prepare_bins(ctx))        # go build / gcc while TLC enumerates
     # ---- 2. TLC enumerates the configurations
     if ctx.replay:
         sel = [dict(ctx.replay["case"]["case"], id=1)] if isinstance(ctx.replay.get("case"), dict) and "case" in ctx.replay["case"] else []
@@ -267,22 +313,33 @@ def run(ctx):
             raise vlib.Inconclusive("replay file carries no case")
         total = 1
     else:
-        g = ctx.tlc("Mounts_Gen", timeout=600, count=False)
+        g = tlc_bg(ctx, "Mounts_Gen", cfg=gen_cfg(ctx), timeout=600, extra=["-seed", str(1000 + ctx.seed)]).join()
         ctx.tlc_ok("Mounts_Gen", g)
-        allc = ctx.read_ndjson(os.path.join(g.dir, "cases.ndjson"))
-        total = len(allc)
-        sel = select(ctx, allc)
+        m = re.search(r'"generated", (\d+), "of", (\d+)', g.out)
+        total = int(m.group(2)) if m else 0
+        sel = [dict(c, id=i + 1) for i, c in enumerate(ctx.read_ndjson(os.path.join(g.dir, "cases.ndjson")))]
+        if not sel:
+            raise vlib.Inconclusive("Mounts_Gen wrote no cases")
     fork = [c for c in sel if c["impl"] == "fork"]
     cont = [c for c in sel if c["impl"] == "cont"]
     ctx.log("cases: %d enumerated, %d selected (%d namespace runner, %d container)" % (total, len(sel), len(fork), len(cont)))
     # ---- 3. the real code
-    fobs, texts = run_driver(ctx, fork, "fork", strace=True)
-    ctx.log("namespace runner: %d sandboxes, %d strace records" % (len(fobs), len(texts)))
+    bins.join()
+    fb = Bg(lambda: run_driver(ctx, fork, "fork", strace=True))
     cobs, _ = run_driver(ctx, cont, "cont", strace=False)
     ctx.log("container: %d sandboxes" % len(cobs))
+    fobs, texts = fb.join()
+    ctx.log("namespace runner: %d sandboxes, %d strace records" % (len(fobs), len(texts)))
     obs = fobs + cobs
     # ---- 4a. TLC judges every observation
-    j = ctx.tlc("Mounts_Judge", files={"obs.ndjson": obs}, timeout=ctx.pick(400, 1500), heap="10g")
+    jb = tlc_bg(ctx, "Mounts_Judge", files={"obs.ndjson": obs}, timeout=ctx.pick(400, 1500), heap="10g")
+    tb = None
+    traces = build_traces(ctx, fobs, texts)
+    if fork and len(traces) != len(fork):
+        raise vlib.Inconclusive("strace records for %d of %d namespace-runner launches" % (len(traces), len(fork)))
+    if traces:
+        tb = tlc_bg(ctx, "Mounts_Trace", files={"traces.ndjson": traces}, timeout=ctx.pick(400, 1200), heap="10g")
+    j = counted(ctx, jb.join())
     ctx.tlc_ok("Mounts_Judge", j)
     bad = ctx.read_ndjson(os.path.join(j.dir, "bad.ndjson"))
     drift = 0
@@ -304,21 +361,10 @@ def run(ctx):
         else:
             model.append(what + (": " + o.get("err", "") if b["c"] == "setup" else ""))
     # ---- 4b. TLC validates the strace records of the raw in-child sequence
-    traces = []
     byid = {o["case"]["id"]: o for o in fobs}
-    work = os.path.join(ctx.scratch, "run-fork")
-    for cid in sorted(texts):
-        o = byid.get(cid)
-        if o is None:
-            continue
-        ev, done = parse_trace(texts[cid], "%s/c%d/root" % (work, cid), "%s/c%d/src" % (work, cid),
-                               "%s/locked/c%d" % (work, cid))
-        traces.append(dict(case=o["case"], srcfl=o["srcfl"], lockfl=o["lockfl"], done=done, ev=ev))
-    if fork and len(traces) != len(fork):
-        raise vlib.Inconclusive("strace records for %d of %d namespace-runner launches" % (len(traces), len(fork)))
     rejected = set()
-    if traces:
-        t = ctx.tlc("Mounts_Trace", files={"traces.ndjson": traces}, timeout=ctx.pick(400, 1200), heap="10g")
+    if tb is not None:
+        t = counted(ctx, tb.join())
         ctx.tlc_ok("Mounts_Trace", t)
         for b in ctx.read_ndjson(os.path.join(t.dir, "bad.ndjson")):
             tr = traces[b["t"] - 1]
@@ -334,6 +380,7 @@ def run(ctx):
         if cid in byid and cid not in rejected:
             model.append("mountinfo differs from the model although the strace record was accepted (case %d, table %s)" % (
                 cid, ",".join(byid[cid]["case"]["kinds"])))
+    ctx.cov["mc"] = mc.join()
     ctx.traces = len(traces)
     ctx.cov["drift"] = drift
     ctx.cov["sandboxes"] = dict(namespace_runner=len(fobs), container=len(cobs))
